@@ -23,10 +23,14 @@ ASSUMPTIONS = [
     'a damaged file may legitimately convert, fail or be ignored: only mode-independence, no abort and no effect on other files are asserted for it',
     'schedules are those the OS produces under the injected per-file delays (0..30 ms before and after each conversion); their number is reported, not enumerated',
     'a batch run that hits the wall-clock watchdog makes the run inconclusive, never violated',
+    'bounded progress ("never prevents the conversion of the others") is decided on a logical clock: each file is first converted on its own '
+    'under a LINE-event counter and must end (converted, failed or ignored) within 40 million lines of Python, two to three orders of '
+    'magnitude above what any generated file needs; a directory holding a file that does not is reported and not run in the batch modes',
 ]
 MECHANISMS = []   # the mechanisms run in child processes; they are counted there through the event log (see monitors)
 REQUIRED_MONITORS = ['one_result_per_input', 'no_abort', 'results_mode_independent', 'outputs_mode_independent',
-                     'exactly_once_output', 'valid_files_converted', 'worker_events', 'overlapping_tasks_seen']
+                     'exactly_once_output', 'valid_files_converted', 'worker_events', 'overlapping_tasks_seen',
+                     'every_conversion_ends_within_step_budget']
 MIN_NONTRIVIAL = {'quick': 8, 'thorough': 60}
 NSHARDS = {'quick': 8, 'thorough': 12}
 DIRS = {'quick': 4, 'thorough': 12}            # directories per shard
@@ -34,6 +38,7 @@ JOBS = {'quick': [2, 4, 16], 'thorough': [1, 2, 3, 4, 8, 16]}
 DELAY_SEEDS = {'quick': 1, 'thorough': 2}
 TIMEOUT_S = {'quick': 420, 'thorough': 3400}
 CHILD_TIMEOUT = 180
+STEP_BUDGET = 40_000_000     # lines of Python for one single-file conversion; the generated files take 10^4..10^6
 CONVERTERS = ['rp66v1', 'lis', 'bit']
 RE_CREA = re.compile(r'^CREA\..*$', re.M)
 
@@ -153,6 +158,35 @@ def run_shard(ctx, p):
         orders = set()
         assignments = set()
         overlapped = False
+        # ---- bounded progress on a logical clock, before any batch run: a file whose conversion does not end would only
+        # be seen as a wall-clock watchdog hit (inconclusive) below
+        spec = dict(base, tag='steps', mode='steps', jobs=0, delay_seed=0, dir_out=os.path.join(tmp, 'out_steps'), step_budget=STEP_BUDGET)
+        status, res, events, wall = run_child(tmp, spec)
+        shutil.rmtree(spec['dir_out'], ignore_errors=True)
+        endless = []
+        if status == 'ok' and res and res.get('steps'):
+            for n in names:
+                st = res['steps'].get(n)
+                if st is None:
+                    continue
+                rec.mon('every_conversion_ends_within_step_budget')
+                rec.maxi('max_steps_of_one_conversion', st[1])
+                if st[0] == 'over':
+                    endless.append(n)
+                    rec.violation('every_conversion_ends_within_step_budget', 'no-end',
+                                  '%s: conversion of %s (%s, %d bytes) still running after %d lines of Python (largest conversion that ended in this directory: %d lines)' % (
+                                      conv, n, kinds[n], len(next(f['data'] for f in case['files'] if f['name'] == n)), st[1],
+                                      max([v[1] for v in res['steps'].values() if v[0] == 'ok'] or [0])),
+                                  {'converter': conv, 'file': n, 'kind': kinds[n], 'steps': st[1], 'where': st[2], 'options': opts,
+                                   'input': next(f['data'] for f in case['files'] if f['name'] == n)})
+        elif status == 'watchdog':
+            rec.inconclusive_because('step-counted single-file runs of converter %s hit the %ds wall-clock watchdog' % (conv, CHILD_TIMEOUT))
+        if endless:
+            # every batch mode would sit in the same conversion until the watchdog: nothing more can be observed here
+            rec.case(json.dumps([(f['name'], f['kind'], len(f['data'])) for f in case['files']]) + repr(sorted(opts.items())), False,
+                     classes=['converter:' + conv, 'directory:holds-endless-conversion'])
+            shutil.rmtree(tmp, ignore_errors=True)
+            continue
         for tag, mode, jobs, ds in runs:
             spec = dict(base, tag=tag, mode=mode, jobs=jobs, delay_seed=ds + 1000 * ctx.seed, dir_out=os.path.join(tmp, 'out_' + tag))
             status, res, events, wall = run_child(tmp, spec)
